@@ -243,3 +243,24 @@ package lossy
 //@   ensures enc.dqm[idx].Y1.DCQuant == specY1DC(q, enc.dqY1DC) && enc.dqm[idx].Y1.Quant == specY1AC(q)
 //@   ensures enc.dqm[idx].Y2.DCQuant == specY2DC(q, enc.dqY2DC) && enc.dqm[idx].Y2.Quant == specY2AC(q, enc.dqY2AC)
 //@   ensures enc.dqm[idx].UV.DCQuant == specUVDC(q, enc.dqUVDC) && enc.dqm[idx].UV.Quant == specUVAC(q, enc.dqUVAC)
+//
+// ---- C11: a pooled lossy encoder is reset before it is reused ----
+//
+// resetForReuse: every field of VP8Encoder is either cleared here (the
+// per-frame decisions and statistics of the previous encode: NZ context,
+// quantiser deltas, susceptibilities, segment and filter headers, skip
+// statistics, rate control, saved planes, per-segment quantiser state) or it is
+// classified as scratch: set from the new call's arguments here (config,
+// width, height, numParts, useDerr), cleared element by element here (mbInfo,
+// topDerr: loops over a symbolic length, not part of the zero proof), or
+// rewritten by the phases NewEncoder runs next (importImage: planes and
+// strides; initSegments / initEncoderParams; ResetProba; tokens.Reset) and by
+// the per-macroblock code before it reads them (tmp*, it*, stat*, serial*).
+// A field added to the struct without being classified fails the coverage
+// obligation.
+//@ func (enc *VP8Encoder) resetForReuse
+//@   property C11
+//@   requires enc != nil
+//@   modifies *
+//@   resets enc zero: leftNz leftNzDC leftDerr dqY1DC dqY2DC dqY2AC dqUVDC dqUVAC globalAlpha globalUVAlpha baseQuant numSegments skipProba numSkip maxI4HeaderBits rateCtrl nzCounts stats filterHdr segmentHdr skipTokens skipExportPlanes parallelRS savedY savedU savedV tmpBestNz dqm \
+//@     scratch: config width height numParts useDerr mbInfo topDerr mbW mbH yPlane uPlane vPlane yStride uvStride yuvIn yuvOut yuvOut2 yuvP proba tokens mbIterator topNz topNzDC tmpCoeffs tmpQCoeffs tmpDQCoeffs tmpDCCoeffs tmpWHTDQ tmpWHTBuf tmpAllQ tmpACLevels tmpRecon tmpUVLevels tmpBestDQ tmpBestQ tmpAnSrc tmpAnPred tmpAnSrcU tmpAnSrcV tmpAnPredU tmpAnPredV statTopNz statTopNzDC itTopY itTopU itTopV itTopModes itTopNZ analysisAlphas segMapTmp serialRowR serialRowG serialRowB serialRowA serialPlanarR serialPlanarG serialPlanarB serialPlanarA serialTmpRGB
